@@ -1960,17 +1960,42 @@ func main() {
 	fmt.Fprintf(&b, "Definition methods : list method := [\n%s\n].\n\n", strings.Join(ms, ";\n"))
 
 	// package-level convenience functions must delegate to DefaultDatasource.<same name>
+	var pkgFuncs []string
 	for _, k := range names {
 		n := strings.TrimPrefix(k, "Datasource.")
 		fd := decls[n]
 		if fd == nil {
 			continue
 		}
-		src := strings.Join(strings.Fields(render(p, fd.Body)), " ")
-		if !strings.HasPrefix(src, "{ return DefaultDatasource."+n+"(ctx, ") {
-			fail(p, fd, "package function %s does not delegate to DefaultDatasource.%s", n, n)
+		pkgFuncs = append(pkgFuncs, q(n))
+		// the body is exactly  return DefaultDatasource.<n>(<its own parameters, in order>)
+		okDeleg := false
+		if len(fd.Body.List) == 1 {
+			if rs, ok := fd.Body.List[0].(*ast.ReturnStmt); ok && len(rs.Results) == 1 {
+				if ce, ok := rs.Results[0].(*ast.CallExpr); ok && render(p, ce.Fun) == "DefaultDatasource."+n {
+					var pnames []string
+					for _, f := range fd.Type.Params.List {
+						for _, nm := range f.Names {
+							pnames = append(pnames, nm.Name)
+						}
+					}
+					same := len(pnames) == len(ce.Args)
+					for i := 0; same && i < len(pnames); i++ {
+						same = render(p, ce.Args[i]) == pnames[i]
+					}
+					_, variadic := fd.Type.Params.List[len(fd.Type.Params.List)-1].Type.(*ast.Ellipsis)
+					if same && variadic == ce.Ellipsis.IsValid() {
+						okDeleg = true
+					}
+				}
+			}
+		}
+		if !okDeleg {
+			fail(p, fd, "package function %s does not delegate to DefaultDatasource.%s with its own arguments", n, n)
 		}
 	}
+
+	fmt.Fprintf(&b, "(* package-level functions whose body is  return DefaultDatasource.<same name>(ctx, <the same arguments>)  *)\nDefinition package_functions : list string := [%s].\n\n", strings.Join(pkgFuncs, "; "))
 
 	// options: every exported function returning FeatureOption / NotesOption
 	var ctors []string
